@@ -10,9 +10,8 @@ use std::collections::BTreeSet;
 
 pub fn test(reg: &Reg, case: &Case, stats: Option<&mut Stats>) -> Verdict {
     let e = &reg.entries[case.ty];
-    if case.payload.has_dup_keys() {
-        return Verdict::Ok;
-    }
+    // duplicate keys (only the order-preserving second value source can carry them): every occurrence is a map
+    // entry of the payload and must be examined and reported like any other; the interpreter processes them in order
     let src = src_for(case);
     let c = compare(e, &case.payload, src);
     if c.out.panicked.is_some() {
@@ -73,7 +72,7 @@ pub fn test(reg: &Reg, case: &Case, stats: Option<&mut Stats>) -> Verdict {
 
 pub fn run(tier: Tier) -> i32 {
     let reg = registry();
-    let gen = case_gen(reg.clone(), reg.modelled_idx(), GenOpts { blind: 0.04, min_fault: 0.06, nonfinite: true, ..GenOpts::default() });
+    let gen = case_gen(reg.clone(), reg.modelled_idx(), GenOpts { blind: 0.04, min_fault: 0.06, nonfinite: true, dup_keys: true, alt_key_spellings: true, ..GenOpts::default() });
     drive(
         "C02",
         tier,
